@@ -5,8 +5,8 @@ from props import _family as F
 
 PROOF_MODULES = ['Jwt.Props.C08']
 PROP_MODULES = ['Jwt.Props.C08']
-PROP_FILES = ['Jwt/Props/C08.lean']
-GENERATED_FACT_THEOREMS = 1
+PROP_FILES = ['Jwt/Props/C08.lean', 'Jwt/Lemmas/PipelineJwk.lean']
+GENERATED_FACT_THEOREMS = 3
 CHECKER_CMD = "cd lean && lake build Jwt.Props.C08 && lake env lean <generated #print axioms file>"
 LEVEL_TEXT = ('Lean theorems: oct import = base64url-decoding of k (bytes, 8*len bits, private, no error) via the C11 round trip; alg/kid/use as functions of the members; frame theorem: setting any member outside the 17 names the library reads, to any JSON value, leaves the imported item unchanged (all key types); C08_param_map over the generated member-to-parameter table of openssl/jwk-parse.c (n,e,d,p,q,dp,dq,qi / x,y,d / x,d reach the parameters RFC 7518 assigns them, x and y the affine coordinates in that order). Numeric identity of RSA/EC/OKP material goes through EVP_PKEY_fromdata/PEM and is sampled: fresh keys of every type, private and public, minimal and zero-padded EC integers, optional and foreign members; imported PEM compared through an independent OpenSSL caller (EVP_PKEY_eq + cross sign/verify).')
 ASSUMPTIONS = F.COMMON_ASSUME + ['PARTIAL: component-wise identity of asymmetric key material is sampled (provider code), not proved']
